@@ -289,7 +289,11 @@ def _observe_results(args):
 
 
 def run(prop, tier, seed, replay):
-    ck = Check(prop, tier, seed, kernels=["k_crash", "k_cache"], theorems=THEOREMS, lean_modules=["YawVerif.Props.C08"],
+    ck = Check(prop, tier, seed, kernels=["k_crash", "k_cache", "k_creation"],
+               # (the marker of a complete catalog is written on a CLEAN exit of the writer only — the flags of the creation
+               #  protocol, proved for C09, are an obligation here as well: a writer that finalises after a failure leaves a
+               #  truncated cache that opens silently)
+               theorems=THEOREMS + ["Yaw.C09.flags", "Yaw.C09.outcome"], lean_modules=["YawVerif.Props.C08", "YawVerif.Props.C09"],
                rule=RULE, level="proof",
                assumptions=["a crash leaves exactly the effects of a prefix of the recorded system calls (no reordering by the "
                             "OS / no power loss); a partially written pickle, YAML, HDF5 or text file does not parse "
